@@ -165,9 +165,10 @@ pub fn c07_regions(input: &str, cfg: &Cfg, well_formed: bool) -> Vec<String> {
                     continue;
                 }
                 let body = &input[offs[a].0..offs[b].1];
-                match out[from..].find(body) {
-                    Some(p) => from += p + body.len(),
-                    None => fails.push("c07: an instruction line of an asm block is not reproduced byte for byte".to_string()),
+                // lines of different conditional-directive passes are not listed in output order: search from the start
+                let _ = &mut from;
+                if !out.contains(body) {
+                    fails.push("c07: an instruction line of an asm block is not reproduced byte for byte".to_string());
                 }
             }
         }
